@@ -342,10 +342,23 @@ class RealRun(object):
         self.touched = set()
 
     def cb(self, kind, i):
-        f = self._cbs.get((kind, i))
+        # Every second callback index (by history seed) is ONE callable used for both directions -- a tracer
+        # `cb(address, value=None)` subscribed to reads and to writes is an ordinary client of the class; read and
+        # write subscriptions are independent tables, so the documented behaviour is that of two separate callables
+        # (seeded change C10-5 kept one set of (address, callback) pairs for both directions).
+        dual = (self.seed + i) % 2 == 0
+        key = ('D', i) if dual else (kind, i)
+        f = self._cbs.get(key)
         if f is None:
             log, replies, seed = self.log, self.replies, self.seed
-            if kind == 'R':
+            if dual:
+                def f(address, value=None, _i=i):
+                    idx = len(log)
+                    log.append((_i, address, value))
+                    r = reply_rule(seed, _i, idx, address, value)
+                    replies.append(r)
+                    return r
+            elif kind == 'R':
                 def f(address, _i=i):
                     idx = len(log)
                     log.append((_i, address, None))
@@ -359,7 +372,7 @@ class RealRun(object):
                     r = reply_rule(seed, _i, idx, address, value)
                     replies.append(r)
                     return r
-            self._cbs[(kind, i)] = f
+            self._cbs[key] = f
         return f
 
     def iterable(self, l, j):
